@@ -136,7 +136,7 @@ static void * worker(void * arg) {
         if (pthread_create(&t, ap, child, (void *)(intptr_t)v)) bad_flags |= 4;
         if (p->b & 8) sched_yield();
         if (pthread_join(t, &rv)) bad_flags |= 8;
-        child_sum[me] += (long)(intptr_t)rv;
+        pthread_mutex_lock(&dm); child_sum[me] += (long)(intptr_t)rv; pthread_mutex_unlock(&dm);   /* a detached child of this thread adds to the same slot, under dm */
       }
       if (ap) RC(pthread_attr_destroy(ap));
       break; }
